@@ -6,6 +6,7 @@ import (
 	"path/filepath"
 	"sort"
 	"strings"
+	"sync"
 	"testing"
 
 	"pgregory.net/rapid"
@@ -71,8 +72,9 @@ type hist struct {
 	nestBudget                   int
 	imgDur                       map[int]durable // by crash.Point.Seq
 
-	fresh   int
-	classes map[string]int
+	fresh     int
+	classes   map[string]int
+	knownOnce sync.Once
 
 	imagesChecked, imagesInsideFlush, imagesAfterSync int
 	idsSinceSync                                      int // ids handed out since the last sequence sync (= start of the last metadata Flush)
@@ -193,6 +195,23 @@ func (h *hist) flushStep() {
 			h.phase = phIdle
 		}
 	case phMetaFlushed:
+		if h.idsSinceSync > 0 && ev.Known(sigSeqNotSynced) {
+			// known finding: ids handed out since the last sequence sync would become durable
+			// through this index flush. Excluded by construction: an additional metadata flush
+			// (sequence sync + dictionaries) runs first, with no write in between.
+			h.knownOnce.Do(func() {
+				ev.KnownFinding("C09", "shape excluded from the generator: "+sigSeqNotSynced)
+			})
+			h.classes["excluded_known"]++
+			h.m.seq++
+			h.logf("metadata PrepareFlush+Flush (seq %d; inserted, known finding)", h.m.seq)
+			h.n.meta.PrepareFlush()
+			if err := h.n.meta.Flush(); err != nil {
+				h.fatalf("metadata Flush failed: %v", err)
+			}
+			h.dur.Meta = h.m.seq
+			h.idsSinceSync = 0
+		}
 		h.cur, h.pending = h.pending[0], h.pending[1:]
 		h.m.seq++
 		h.idxPrepSeq[h.cur] = h.m.seq
